@@ -248,6 +248,7 @@ func init() {
 	type dynState struct {
 		recs []*c06Rec
 		errs []string
+		txns []*Txn
 	}
 	registerSched(&schedScenario{
 		name:   "c06dyn",
@@ -272,6 +273,11 @@ func init() {
 			if err := txn.Commit(); err != nil {
 				panic(err)
 			}
+			// the committers' transactions are created up front: a NewTransaction issued while
+			// another commit is in flight waits for it, and the requests would never share a batch
+			for i := 0; i < 3; i++ {
+				st.txns = append(st.txns, x.db.NewTransaction(true))
+			}
 		},
 		threads: func(x *schedExec) []sched.Thread {
 			st := x.state.(*dynState)
@@ -282,9 +288,10 @@ func init() {
 			c /= 2
 			nb := []int{1, 3}[c%2]
 			mk := func(name string, sizes []int) sched.Thread {
+				txn := st.txns[0]
+				st.txns = st.txns[1:]
 				return sched.Thread{Name: name, Body: func() {
 					x.s.Point("op")
-					txn := x.db.NewTransaction(true)
 					var mine []*c06Rec
 					for i, n := range sizes {
 						r := &c06Rec{key: fmt.Sprintf("%s-%d", name, i), val: val(fmt.Sprintf("%s.%d|", name, i), n), umeta: byte(i + 1)}
@@ -335,6 +342,101 @@ func init() {
 				return "", s, "value-roundtrip"
 			}
 			return fmt.Sprintf("threshold=%d A-in-vlog=%v", x.db.valueThreshold(), aPtr), "", ""
+		},
+	})
+}
+
+// c16rot (E-sched): three committers whose value-log values are written by badger's writer
+// goroutine in batches (the first request keeps the writer busy, the next two form one batch);
+// ValueLogMaxEntries is 1, so the value log rotates to a new file between the requests of one
+// batch; with and without encryption.  Every value must read back through its value pointer, before
+// and after a re-open.
+func init() {
+	type rotState struct {
+		recs []*c06Rec
+		errs []string
+		txns []*Txn
+	}
+	registerSched(&schedScenario{
+		name:   "c16rot",
+		points: []string{"op", "write.vlog", "write.lsm"},
+		setup: func(x *schedExec) {
+			o := smallOpts(x.dir)
+			o.ValueThreshold = 32
+			o.ValueLogMaxEntries = 1
+			if x.j.Int("case", 0)%2 == 1 {
+				o.EncryptionKey = []byte("0123456789abcdef")
+				o.IndexCacheSize = 1 << 20
+				o.BlockCacheSize = 1 << 20
+			}
+			x.db = mustOpen(o)
+			st := &rotState{}
+			x.state = st
+			for i := 0; i < 3; i++ { // see c06dyn: created up front so that requests can share a batch
+				st.txns = append(st.txns, x.db.NewTransaction(true))
+			}
+		},
+		threads: func(x *schedExec) []sched.Thread {
+			st := x.state.(*rotState)
+			mk := func(name string, n int) sched.Thread {
+				txn := st.txns[0]
+				st.txns = st.txns[1:]
+				return sched.Thread{Name: name, Body: func() {
+					x.s.Point("op")
+					var mine []*c06Rec
+					for i := 0; i < n; i++ {
+						r := &c06Rec{key: fmt.Sprintf("%s-%d", name, i), val: val(fmt.Sprintf("%s.%d|", name, i), 100+10*i), umeta: byte(i + 1)}
+						if err := txn.SetEntry(NewEntry([]byte(r.key), r.val).WithMeta(r.umeta)); err != nil {
+							st.errs = append(st.errs, err.Error())
+							return
+						}
+						mine = append(mine, r)
+					}
+					if err := txn.Commit(); err != nil {
+						st.errs = append(st.errs, fmt.Sprintf("%s: %v", name, err))
+						return
+					}
+					st.recs = append(st.recs, mine...)
+				}}
+			}
+			return []sched.Thread{mk("C", 1), mk("A", 1+x.j.Int("case", 0)/2%2), mk("B", 2)}
+		},
+		check: func(x *schedExec) (string, string, string) {
+			st := x.state.(*rotState)
+			if len(st.errs) > 0 {
+				return "", "commit failed: " + strings.Join(st.errs, "; "), "c06-commit-error"
+			}
+			d := dumpAll(x.db)
+			var recs []c06Rec
+			for _, r := range st.recs {
+				vs := d[r.key]
+				if len(vs) != 1 {
+					return "", fmt.Sprintf("key %q has %d versions (dump %s)", r.key, len(vs), dumpString(d)), "value-roundtrip"
+				}
+				r.ver = vs[0].Ver
+				recs = append(recs, *r)
+			}
+			sort.Slice(recs, func(i, j int) bool { return recs[i].key < recs[j].key })
+			if s := c06ReadAll(x.db, recs, "after the commits", 32); s != "" {
+				return "", s, "value-roundtrip"
+			}
+			x.db.vlog.filesLock.RLock()
+			nfiles := len(x.db.vlog.filesMap)
+			x.db.vlog.filesLock.RUnlock()
+			opt := x.db.opt
+			if err := x.db.Close(); err != nil {
+				return "", "close: " + err.Error(), "c06-close"
+			}
+			db, err := Open(opt)
+			if err != nil {
+				x.db = nil
+				return "", "re-open: " + err.Error(), "c06-reopen"
+			}
+			x.db = db
+			if s := c06ReadAll(x.db, recs, "after re-open", 32); s != "" {
+				return "", s, "value-roundtrip"
+			}
+			return fmt.Sprintf("vlogfiles=%d", nfiles), "", ""
 		},
 	})
 }
